@@ -165,12 +165,19 @@ def make_inputs(rng, kind):
     if kind == "nucleotide":
         return [seqmod.NucleotideSequence("".join(rng.choice(list("ACGT"), size=int(rng.integers(1, 12))))) for _ in range(n)], None
     # mapped general alphabet with custom matrix
-    alph = seqmod.Alphabet(["foo", "bar", 42, ("t", 1)])
+    # a small alphabet, or one with exactly as many symbols as the amino acid alphabet it is mapped into (the largest
+    # that can be mapped; the last codes map onto the ambiguity and stop letters)
+    nprot = len(seqmod.ProteinSequence.alphabet)
+    size = 4 if rng.random() < 0.7 else nprot
+    alph = seqmod.Alphabet(["foo", "bar", 42, ("t", 1)] + ["s%d" % i for i in range(size - 4)])
     seqs = []
     for _ in range(n):
-        s = seqmod.GeneralSequence(alph, [alph.get_symbols()[int(i)] for i in rng.integers(0, 4, size=int(rng.integers(1, 9)))])
+        codes = [int(i) for i in rng.integers(0, size, size=int(rng.integers(1, 9)))]
+        if size > 4 and rng.random() < 0.5:
+            codes[0] = size - 1
+        s = seqmod.GeneralSequence(alph, [alph.get_symbols()[i] for i in codes])
         seqs.append(s)
-    mat = rng.integers(-5, 6, size=(4, 4))
+    mat = rng.integers(-5, 6, size=(size, size))
     mat = (mat + mat.T).astype(np.int32)
     return seqs, align.SubstitutionMatrix(alph, alph, mat)
 
